@@ -130,8 +130,8 @@ def run_property(prop, title, obligations, prog, tier, explanation, assumptions,
                 first_ = f.key(prop) not in {x.key(prop) for x in known_hits}
                 known_hits.append(f)
                 if first_:
-                            f"KNOWN-FINDING: property={prop} obligation={f.obligation} {f.function}: "
-                        f"{known_keys[f.key(prop)].get('what_fails', f.message)}")
+                    lines.append(f"KNOWN-FINDING: property={prop} obligation={f.obligation} {f.function}: "
+                                 f"{known_keys[f.key(prop)].get('what_fails', f.message)}")
             else:
                 real.append(f)
         if real:
